@@ -102,6 +102,13 @@ func NewInterceptingListener(
 		return nil, fmt.Errorf("(%s) storage is nil but not all function options are non-nil", op)
 	}
 
+	// Handshakes run concurrently and each appends per-connection options to
+	// this slice, so keep a private copy without spare capacity: every append
+	// then allocates a new backing array instead of writing into shared
+	// memory (or into the caller's slice).
+	options := make([]nodeenrollment.Option, len(config.Options))
+	copy(options, config.Options)
+
 	l := &InterceptingListener{
 		ctx:                          config.Context,
 		storage:                      config.Storage,
@@ -109,7 +116,7 @@ func NewInterceptingListener(
 		baseTlsConf:                  config.BaseTlsConfiguration,
 		fetchCredsFn:                 config.FetchCredsFunc,
 		generateServerCertificatesFn: config.GenerateServerCertificatesFunc,
-		options:                      config.Options,
+		options:                      options,
 	}
 
 	if l.fetchCredsFn == nil {
